@@ -400,6 +400,46 @@ def _deg_info(ctx, phys):
         ctx.track('info.trajectory differs between in_degrees settings', float(np.abs(a['Q'] - b['Q']).max()))
 
 
+def job_ownership(ctx):
+    """A Sensors object built from a caller's trajectory keeps describing THAT trajectory when the caller later reuses (rotates, rescales,
+    overwrites) the array it handed over: ground truth, rotations and samples stay mutually consistent."""
+    import ahrs
+    from ahrs.utils import sensors as S
+    from mc.ref import quat as rq
+    N = 40
+    axis = np.array([0.3, -0.5, 0.8]); axis /= np.linalg.norm(axis)
+    traj = np.array([rq.axang2q(axis, 0.02 * i) for i in range(N)])
+    g = rq.qunit([0.7, -0.3, -0.2, 0.6])
+    old = S.GENERATOR
+    try:
+        for typ in ('QuaternionArray', 'ndarray'):
+            S.GENERATOR = np.random.default_rng(7)
+            given = ahrs.QuaternionArray(traj.copy()) if typ == 'QuaternionArray' else traj.copy()
+            imu = ahrs.Sensors(quaternions=given, num_samples=N, gyr_noise=0.0, acc_noise=0.0, mag_noise=0.0)
+            q_before = np.array(np.asarray(imu.quaternions), float).copy()
+            acc_before = np.array(imu.accelerometers, float).copy()
+            # the caller reuses its array for a second, differently mounted sensor
+            if typ == 'QuaternionArray':
+                given.rotate_by(g.copy(), inplace=True)
+            else:
+                given[:] = np.array([rq.qmul(g, r) for r in given])
+            S.GENERATOR = np.random.default_rng(8)
+            imu2 = ahrs.Sensors(quaternions=given, num_samples=N, gyr_noise=0.0, acc_noise=0.0, mag_noise=0.0)
+            key = f'given as {typ}, caller rotates its array in place afterwards'
+            q_after = np.array(np.asarray(imu.quaternions), float)
+            ctx.expect(q_after.shape == q_before.shape and np.abs(q_after - q_before).max() == 0.0, 'Sensors.quaternions unaffected by later changes of the caller trajectory', key, q_after[:2], q_before[:2])
+            R = np.asarray(imu.rotations, float)
+            Rq = np.array([rq.R(rq.qunit(q)) for q in q_after])
+            ctx.close(R, Rq, 1e-12, 'rotations and quaternions of the first object still describe the same attitudes', key)
+            gref = np.asarray(imu.reference_gravitational_vector, float) if hasattr(imu, 'reference_gravitational_vector') else None
+            ctx.close(np.array(imu.accelerometers, float), acc_before, 0.0, 'accelerometers of the first object unchanged', key)
+            ctx.expect(not np.shares_memory(np.asarray(imu.quaternions), np.asarray(given)), 'Sensors.quaternions does not share memory with the caller trajectory', key, True, False)
+            ctx.seen(('own', typ)); ctx.cls('ownership')
+    finally:
+        S.GENERATOR = old
+    ctx.sample({'ownership': 'Sensors(quaternions=Q); Q.rotate_by(g, inplace=True); re-check the first object'})
+
+
 def job_given(ctx, names, N, freq, q0name, rngs, full):
     q0 = np.array([1.0, 0.0, 0.0, 0.0]) if q0name == 'I' else A.MENU[int(q0name[1:])].copy()
     for ti, name in enumerate(names):
@@ -457,6 +497,7 @@ def run(ctx):
             full = thorough and q0 == 'I'
             for lo, hi in core.chunks(len(names), 28 if full else (14 if thorough else 8)):
                 jobs.append(('job_given', (names[lo:hi], N, f, q0, grngs, full)))
+    jobs.append(('job_ownership', ()))
     core.run_jobs(ctx, __name__, jobs)
     ctx.notes['generator_seeds'] = rngs
     ctx.notes['noise_menu'] = {'gyr_noise [deg/s]': GYR, 'acc_noise': ACC, 'mag_noise': MAG}
